@@ -32,6 +32,7 @@ struct ArgSpec {
    std::vector<std::pair<char, std::string>> constraints;   // ('r'|'x', "k1;k2")
    char sep = 0;
    std::string init;                          // initial value (int: decimal, flag: 0/1, str: hex, vec: csv)
+   std::string fmt;                           // "" = no formatter, upper = addFormat( uppercase()), lower = addFormat( lowercase())
 };
 
 struct GlobSpec { std::string kind, keys; };
@@ -131,6 +132,8 @@ static void defineArg(Handler& h, const ArgSpec& a, Dest& d) {
       if (c.first == 'r') t->addConstraint(cpa::requiresArg(c.second));
       else t->addConstraint(cpa::excludes(c.second));
    }
+   if (a.fmt == "upper") t->addFormat(cpa::uppercase());
+   else if (a.fmt == "lower") t->addFormat(cpa::lowercase());
    if (a.multi) t->setTakesMultiValue();
    if (a.sep) t->setListSep(a.sep);
    if (a.deprecated) t->setIsDeprecated();
@@ -305,8 +308,11 @@ int main() {
             else if (key == "excl") a.constraints.emplace_back('x', val);
             else if (key == "sep") { std::string s; vh::hexDecodeStr(val, s); a.sep = s.empty() ? 0 : s[0]; }
             else if (key == "init") a.init = val;
+            else if (key == "fmt") { if (val != "upper" && val != "lower") return "bad-op"; a.fmt = val; }
             else return "bad-op";
          }
+         // value formatters are in the protocol for string and int destinations only (as in the model driver)
+         if (!a.fmt.empty() && a.kind != "str" && a.kind != "int") return "bad-op";
          if (inSub) {
             SubSpec& sp = building.subs.back();
             sp.args.push_back(a);
